@@ -1,5 +1,5 @@
 (* Unimock.Props.C12 -- property theorems only. *)
-From Unimock Require Import Model.RunConc Spec.Chain Proofs.Core Proofs.C02 Proofs.C14 Proofs.Conc.
+From Unimock Require Import Model.RunConc Spec.Chain Proofs.Core Proofs.C02 Proofs.C14 Proofs.Conc Proofs.Trace.
 Open Scope N_scope.
 
 (* for EVERY schedule of any threads: a single-use value is handed out at most once (the log of deliveries has no
@@ -118,6 +118,11 @@ Proof.
     + apply in_app_or in Hin as [Hin|[Hin|[]]]; [apply (G b Hb k r); exact Hin|injection Hin as _ <-; exact I].
     + apply (G b Hb k r); exact Hin.
 Qed.
+
+(* a request that is ANSWERED (a value is handed out) runs none of the user code in the arguments' Debug impls: that code runs
+   only to render a call into an error message - so nothing a user's Debug impl does can destroy a value on its way to the caller *)
+Theorem C12_answered_request_runs_no_debug : forall act, (forall e, act <> ActPanic e) -> debug_runs act = 0.
+Proof. exact answered_call_runs_no_debug. Qed.
 
 Example C12_receiver_nonvacuous :
   (* two threads race for a composite value (two slots) under the schedule 0,0,1,1,1,0: thread 0, which emptied the first slot,
